@@ -106,7 +106,9 @@ RULE = ("corpus, then the quantifier family (and_(l1, .., Q), Q = exists / for_a
         "body, aimed at and just outside the fragment of Props/C01Quant.lean; the Lean predicate Eql.quantProved decides "
         "membership in the driver, where F-C01-5/7/11 are then no excuse), then random condition trees (depth<=3, 1-3 variables + dedicated quantifier variables, int and "
         "object domains of 0-4 elements incl. falsy values (no longer excused: F-C01-3 is repaired, a falsy bound value "
-        "must behave like any other operand), empty domains and value-equal distinct objects; or_ with "
+        "must behave like any other operand), comparisons whose two operands are index / attribute / call terms over the same "
+        "container or object (x.items[0] == x.items[1], self-joins), membership and comparison over computed collections "
+        "(a fresh list per attribute access; 3-8 objects), empty domains and value-equal distinct objects; or_ with "
         "all variable-set relations; 1-4 selected expressions); non-trivial = the specified answer set is neither "
         "empty nor the full product; distinct by case text")
 
@@ -247,6 +249,14 @@ def generate(rng, tier, n):
         q = G.gen_subquery_query(rng)
         out.append(Case(G.sx_query(q), ("subquery-operand", "nsel%d" % len(q["sel"])) + tuple(sorted(set(G.cond_ops(q["cond"])))),
                         "random", q))
+    # s6a: comparisons between two index/attribute/call terms of the SAME container or object; conditions over COMPUTED
+    # collections (a fresh list per access, so that addresses are reused within one evaluation)
+    for fam, tag, k in ((G.gen_same_container_query, "same-container-operands", max(60, n // 16)),
+                        (G.gen_computed_collection_query, "computed-collection", max(60, n // 16))):
+        for _ in range(k):
+            q = fam(rng)
+            out.append(Case(G.sx_query(q), (tag, "nsel%d" % len(q["sel"])) + tuple(sorted(set(G.cond_ops(q["cond"])))),
+                            "random", q))
     for _ in range(n):
         q = G.gen_query(rng)
         ops = G.cond_ops(q["cond"])
